@@ -51,9 +51,15 @@ def _printf(lines, redirect=""):
 def fake_script(scn, fk, logfile):
     """Shell text of the executable `fk` of scenario `scn`."""
     name, speaks = fk["name"], fk["speaks"]
+    # what the executable does when it is probed with --help is not part of any convention: real solvers
+    # print a usage text and exit with 0, or with 1, or take the word for a file name and fail
+    import zlib
+    hb = zlib.crc32(("%s/%s/%s" % (name, scn["n"], len(scn["cls"]))).encode()) % 3
     out = ["#!/bin/sh", "# fake solver %s speaking %s (%s)" % (name, speaks, fk["role"]),
            "exec 2>/dev/null",
-           'for a in "$@"; do [ "$a" = "--help" ] && { echo "usage: %s [options]"; exit 0; }; done' % name]
+           'for a in "$@"; do [ "$a" = "--help" ] && { echo "%s"; exit %d; }; done'
+           % (("usage: %s [options]" % name, 0), ("usage: %s [options]" % name, 1),
+              ("c cannot open file --help", 2))[hb]]
     if fk["role"] != "target":
         out += ['echo "%s decoy" >> %s' % (name, _q(logfile)), 'echo "c %s: I should not have been run"' % name, "exit 1"]
         return "\n".join(out) + "\n"
